@@ -2,6 +2,277 @@
 
 package main
 
-import "github.com/theparanoids/ysshra/internal/zzverif/ev"
+import (
+	"encoding/hex"
+	"encoding/json"
+	"fmt"
+	"net"
+	"regexp"
+	"strconv"
+	"strings"
+	"sync"
+	"unicode/utf8"
 
-func checkC14(c *ev.Ctx) { c.Cap("not implemented") }
+	"github.com/theparanoids/ysshra/csr"
+	"github.com/theparanoids/ysshra/internal/zzverif/ev"
+	"github.com/theparanoids/ysshra/sshutils/version"
+	"github.com/theparanoids/ysshra/zzverifrt/vrand"
+)
+
+type c14Case struct {
+	Cmd, LogName, Conn string
+	Args               []string
+	CmdHex             string `json:",omitempty"`
+}
+
+var c14TransRE = regexp.MustCompile(`^[0-9a-f]{10}$`)
+var c14VerRE = regexp.MustCompile(`^[0-9]+\.[0-9]+$`)
+
+var (
+	c14Seen   = map[string]struct{}{}
+	c14SeenMu sync.Mutex
+)
+
+// c14Declared extracts what the client declared, with an independent decode (JSON object first, else legacy tokens).
+func c14Declared(cmd string) (isJSONObj bool, user, host, ver string, legacyOK bool) {
+	var probe map[string]json.RawMessage
+	if json.Unmarshal([]byte(cmd), &probe) == nil && probe != nil {
+		var f struct {
+			Username, Hostname, SSHClientVersion string
+		}
+		if json.Unmarshal([]byte(cmd), &f) == nil {
+			return true, f.Username, f.Hostname, f.SSHClientVersion, false
+		}
+	}
+	ref := map[string]string{}
+	for _, tok := range strings.Split(cmd, " ") {
+		tok = strings.TrimSpace(tok)
+		if tok == "" {
+			continue
+		}
+		k, v := tok, ""
+		if i := strings.Index(tok, "="); i >= 0 {
+			k, v = tok[:i], tok[i+1:]
+		}
+		ref[k] = v
+	}
+	req, ok := ref["req"]
+	parts := strings.Split(req, "@")
+	if !ok || len(parts) != 2 {
+		return false, "", "", "", false
+	}
+	return false, parts[0], parts[1], ref["SSHClientVersion"], true
+}
+
+func c14Run(c *ev.Ctx, k c14Case, serial bool) {
+	c.Eval()
+	if k.CmdHex != "" {
+		b, _ := hex.DecodeString(k.CmdHex)
+		k.Cmd = string(b)
+	} else if !utf8.ValidString(k.Cmd) {
+		k.CmdHex = hex.EncodeToString([]byte(k.Cmd))
+	}
+	env := map[string]string{"SSH_ORIGINAL_COMMAND": k.Cmd, "LOGNAME": k.LogName, "SSH_CONNECTION": k.Conn}
+	var p *csr.ReqParam
+	var err error
+	if serial {
+		vrand.ResetLog()
+	}
+	if pm := ev.Guard(func() {
+		p, err = csr.NewReqParam(func(s string) string { return env[s] }, func() []string { return k.Args })
+	}); pm != "" {
+		c.Violation("C14:panic:"+ev.PanicSite(pm), pm, k)
+		return
+	}
+	// reference facts from the statement
+	var toks []string
+	for _, a := range k.Args {
+		toks = append(toks, strings.Split(a, " ")...)
+	}
+	first := strings.Split(k.Conn, " ")[0]
+	isObj, user, host, ver, legacyOK := c14Declared(k.Cmd)
+	mustReject := ""
+	switch {
+	case k.LogName == "":
+		mustReject = "empty-logname"
+	case net.ParseIP(first) == nil:
+		mustReject = "conn-not-ip"
+	case len(toks) < 3 || len(toks) > 6:
+		mustReject = "token-count"
+	case toks[len(toks)-2] != "NONS" && toks[len(toks)-2] != "NSOK":
+		mustReject = "bad-policy"
+	case isObj && (user == "" || host == "" || ver == ""):
+		mustReject = "json-missing-field"
+	case (isObj || legacyOK) && ver != "" && !c14VersionOK(ver):
+		mustReject = "bad-version"
+	}
+	if err != nil {
+		if p != nil {
+			c.Violation("C14:value-with-error", "NewReqParam returned both parameters and an error", k)
+		}
+		c.Outcome("refused:" + mustReject)
+		return
+	}
+	if mustReject != "" {
+		c.Violation("C14:accepted:"+mustReject, fmt.Sprintf("input that must be rejected (%s) produced %s", mustReject, c14Show(p)), k)
+		return
+	}
+	c.Outcome("accepted")
+	c.Nontrivial(ev.JSON(k))
+	if p == nil {
+		c.Violation("C14:nil-nil", "NewReqParam returned (nil, nil)", k)
+		return
+	}
+	if p.LogName != k.LogName || p.LogName == "" {
+		c.Violation("C14:logname", fmt.Sprintf("LogName %q, server-side LOGNAME %q", p.LogName, k.LogName), k)
+	}
+	if p.ClientIP != first || net.ParseIP(p.ClientIP) == nil {
+		c.Violation("C14:clientip", fmt.Sprintf("ClientIP %q, first field %q", p.ClientIP, first), k)
+	}
+	if string(p.NamespacePolicy) != toks[len(toks)-2] {
+		c.Violation("C14:policy", fmt.Sprintf("policy %q, forced-command token %q", p.NamespacePolicy, toks[len(toks)-2]), k)
+	}
+	if p.HandlerName != toks[len(toks)-1] {
+		c.Violation("C14:handler", fmt.Sprintf("handler %q, last token %q", p.HandlerName, toks[len(toks)-1]), k)
+	}
+	if !isObj && !legacyOK {
+		c.Violation("C14:accepted:undecodable-command", "command is neither a JSON attribute object nor legacy text with a requester, yet accepted: "+c14Show(p), k)
+		return
+	}
+	if p.ReqUser != user || p.ReqHost != host {
+		c.Violation("C14:requser-reqhost", fmt.Sprintf("ReqUser/ReqHost %q/%q, client declared %q/%q", p.ReqUser, p.ReqHost, user, host), k)
+	}
+	wantVer := version.NewDefaultVersion()
+	if ver != "" {
+		i := strings.Index(ver, ".")
+		ma, _ := strconv.ParseUint(ver[:i], 10, 16)
+		mi, _ := strconv.ParseUint(ver[i+1:], 10, 16)
+		wantVer = version.New(uint16(ma), uint16(mi))
+	}
+	if p.SSHClientVersion != wantVer {
+		c.Violation("C14:client-version", fmt.Sprintf("version %s, declared %q", p.SSHClientVersion.Marshal(), ver), k)
+	}
+	if !c14TransRE.MatchString(p.TransID) {
+		c.Violation("C14:transid-format", fmt.Sprintf("TransID %q is not 10 hex digits", p.TransID), k)
+	}
+	c14SeenMu.Lock()
+	_, dup := c14Seen[p.TransID]
+	c14Seen[p.TransID] = struct{}{}
+	c14SeenMu.Unlock()
+	if dup {
+		c.Violation("C14:transid-repeated", fmt.Sprintf("TransID %q already used by an earlier request", p.TransID), k)
+	}
+	if serial {
+		found := false
+		for _, r := range vrand.Log() {
+			if len(r) == 5 && hex.EncodeToString(r) == p.TransID {
+				found = true
+			}
+		}
+		if !found {
+			c.Violation("C14:transid-not-from-csprng", fmt.Sprintf("TransID %q is not the hex of five bytes drawn from the CSPRNG during this call (reads: %d)", p.TransID, len(vrand.Log())), k)
+		}
+		c.Count("csprng_identity_checked", 1)
+	}
+}
+
+func c14VersionOK(v string) bool {
+	if !c14VerRE.MatchString(v) {
+		return false
+	}
+	i := strings.Index(v, ".")
+	if _, err := strconv.ParseUint(v[:i], 10, 16); err != nil {
+		return false
+	}
+	_, err := strconv.ParseUint(v[i+1:], 10, 16)
+	return err == nil
+}
+
+func c14Show(p *csr.ReqParam) string {
+	if p == nil {
+		return "nil"
+	}
+	return fmt.Sprintf("{policy:%q handler:%q ip:%q log:%q user:%q host:%q trans:%q ver:%s}", p.NamespacePolicy, p.HandlerName, p.ClientIP, p.LogName, p.ReqUser, p.ReqHost, p.TransID, p.SSHClientVersion.Marshal())
+}
+
+func c14Commands() []string {
+	full := func(u, h, v string) string {
+		b, _ := json.Marshal(map[string]any{"username": u, "hostname": h, "sshClientVersion": v, "ifVer": 7, "hardKey": false})
+		return string(b)
+	}
+	cmds := []string{
+		full("alice", "host.com", "8.1"), full("mallory", "h", "9.0"), full("ü\"{}", "h <&>", "0.0"), full("alice", "host.com", "65535.65535"),
+		full("alice", "host.com", "65536.0"), full("alice", "host.com", "8"), full("alice", "host.com", "8.1.2"), full("alice", "host.com", "v8.1"), full("alice", "host.com", " 8.1"),
+		full("", "h", "8.1"), full("u", "", "8.1"), full("u", "h", ""),
+		"null", "[]", "[1]", "7", `"s"`, "true", "{}", `{"username":"u"}`, `{"username":1,"hostname":"h","sshClientVersion":"8.1"}`,
+		`{"username":"u","hostname":"h","sshClientVersion":8.1}`, `{"username":"u","hostname":"h","sshClientVersion":"8.1","username":"second"}`,
+		`{"username":"u","hostname":"h","sshClientVersion":"8.1","exts":{"a":{"b":[1,{"c":null}]}}}`, `{"username":"u","hostname":"h","sshClientVersion":"8.1","touchlessSudo":null}`,
+		`{"username":"u","hostname":"h","sshClientVersion":"8.1","signatureAlgo":99,"caPubKeyAlgo":-1}`, `{"username":"u","hostname":"h","sshClientVersion":"8.1"} trailing`,
+		`{"x":"IFVer=6 req=u@h y"}`, `{"username":"u","hostname":"h","sshClientVersion":"8.1"`,
+		"IFVer=6 SSHClientVersion=8.1 req=user@host.com HardKey=true", "IFVer=6 req=user@host.com", "req=user@host.com", "SSHClientVersion=8.1 req=user@host.com",
+		"SSHClientVersion=x req=user@host.com", "SSHClientVersion=8 req=u@h", "SSHClientVersion=70000.1 req=u@h", "SSHClientVersion= req=u@h", "IFVer=6 SSHClientVersion=8.1",
+		"req=user", "req=a@b@c", "req=@", "req=@h", "req=u@", "req", "req=u@h req=v@g", "  req=u@h  ", "\treq=u@h", "IFVer=six req=u@h", "a=b=c req=u@h =v", "", " ", "\x00", "\xff\xfe req=u@h",
+		"req=\xff@h", "req=u@h HardKey=notbool TouchlessSudoTime=9x", strings.Repeat("x", 5000), strings.Repeat("req=u@h ", 500), strings.Repeat("[", 2000),
+	}
+	return cmds
+}
+
+func checkC14(c *ev.Ctx) {
+	c.Rule("SSH_ORIGINAL_COMMAND from a 60-text catalogue (JSON objects with good/missing/mistyped fields and 8 version spellings, other JSON values, legacy k=v texts, empty, raw bytes) x LOGNAME{5} x SSH_CONNECTION{11} x argument vectors: part A (serial, CSPRNG identity checked) all commands x lognames x connections x 8 vectors; part B all vectors of 0..4 arguments over an 8-token alphabet (thorough: 0..8 over 4 tokens as well) x reduced command/logname/connection sets; each compared with a reference model written from the statement. non-trivial = accepted input; distinct by input")
+	c.Assume("transid bytes come through the csprng seam (crypto/rand import of csr/transid redirected to a recording deterministic stream)")
+	if c.ReplayCase != nil {
+		var k c14Case
+		json.Unmarshal(c.ReplayCase, &k)
+		c14Run(c, k, true)
+		return
+	}
+	cmds := c14Commands()
+	lognames := []string{"alice", "", "a b", "ünï", "../x"}
+	conns := []string{"1.2.3.4 36673 192.168.223.229 22", "", "2001:db8::1 1 ::1 22", "1.2.3.4", " 1.2.3.4 1 2 3", "1.2.3.4\t1\t2\t3", "999.1.1.1 1 2 3", "fe80::1%eth0 1 2 3", "1.2.3.4 ", "host.example 1 2 3", "01.2.3.4 1 2 3"}
+	argvs := [][]string{{"/usr/bin/gensign", "NONS", "Regular"}, {"/usr/bin/gensign", "NSOK", "Regular"}, {"/usr/bin/gensign NONS Regular"}, {"/usr/bin/gensign", "nons", "Regular"},
+		{"/usr/bin/gensign", "Regular"}, {}, {"a", "b", "c", "d", "NSOK", "e"}, {"a", "b", "c", "d", "e", "NSOK", "f"}}
+	for _, cmd := range cmds {
+		for _, ln := range lognames {
+			for _, cn := range conns {
+				for _, av := range argvs {
+					c14Run(c, c14Case{Cmd: cmd, LogName: ln, Conn: cn, Args: av}, true)
+				}
+			}
+		}
+	}
+	c.Sample(c14Case{Cmd: cmds[0], LogName: "alice", Conn: conns[0], Args: argvs[2]})
+	c.Sample(c14Case{Cmd: "null", LogName: "alice", Conn: conns[0], Args: argvs[0]})
+	// part B: all argument vectors
+	alpha := []string{"/usr/bin/gensign", "NONS", "NSOK", "nons", "Regular", "NONS Regular", "a b c", ""}
+	var vecs [][]string
+	var rec func(pre []string, d, max int, al []string)
+	rec = func(pre []string, d, max int, al []string) {
+		vecs = append(vecs, append([]string{}, pre...))
+		if d == max {
+			return
+		}
+		for _, t := range al {
+			rec(append(pre, t), d+1, max, al)
+		}
+	}
+	rec(nil, 0, 4, alpha)
+	if c.Thorough() {
+		rec(nil, 0, 8, []string{"g", "NONS", "NSOK x", ""})
+	}
+	c.Set("argument_vectors", len(vecs))
+	bc := []string{cmds[0], cmds[2], "IFVer=6 req=user@host.com", "null"}
+	bl := []string{"alice", ""}
+	bn := []string{conns[0], conns[2], "x"}
+	c.ParMap(len(vecs), func(i int) {
+		for _, cmd := range bc {
+			for _, ln := range bl {
+				for _, cn := range bn {
+					c14Run(c, c14Case{Cmd: cmd, LogName: ln, Conn: cn, Args: vecs[i]}, false)
+				}
+			}
+		}
+		if i%1201 == 3 {
+			c.Sample(c14Case{Cmd: bc[2], LogName: "alice", Conn: bn[0], Args: vecs[i]})
+		}
+	})
+}
